@@ -12,6 +12,7 @@ def run(ctx):
     s = ctx['seed'] + 15
     return run_parts(ctx, [
         Part('invalid_matrix', 'corr_api', 'run_invalid_matrix', [s, 2 if q else 25]),
+        Part('histories_key_edits', 'corr_api', 'run_histories', [s + 1, 40 if q else 600]),
         Part('valid_degenerate', 'corr_api', 'run_valid_degenerate', [s, 200 if q else 4000]),
         Part('missing_patterns', 'corr_meta', 'run_missing', [s, 40 if q else 400], specs=set()),
     ], RULE)
